@@ -1,9 +1,46 @@
 (** C10 - Group aggregations and projections equal their per-group definitions.
-    Only statements here; proofs are in proofs/GroupProofs.v. *)
+    Only statements here; proofs are in proofs/GroupProofs.v (numpy list lemmas in
+    proofs/NpProofs.v).  The model functions ([Group.sum], [Group.nb_persons], ...) are the
+    ones the correspondence check runs (corr/Corr_C10.v); the vocabulary of the
+    right-hand sides ([wf_pop], [members], [members_with_role], [in_role], [zsum], ...) is
+    in model/GroupSpec.v.
+
+    Every group-level result is given as the WHOLE list
+        map (fun g => <per-group definition on exactly the members of g>) (seq 0 count)
+    i.e. one element per group g = 0 .. count-1 of the simulation -- groups without any
+    member (leading, middle, trailing) included -- for every population size, membership
+    map [g_ids] (any storage order), role map and value array. *)
 From Coq Require Import String ZArith List Bool Arith.
-From Verif Require Import Base Np Group GroupProofs.
+From Verif Require Import Base Np Group GroupSpec GroupProofs.
 Import ListNotations.
 Open Scope nat_scope.
+
+(** sum(array, role): for each group, the sum over exactly its members [holding the role]. *)
+Theorem sum_spec : forall p array role,
+  wf_pop p -> length array = npersons p ->
+  sum p array role =
+  Ok (map (fun g => zsum (map (fun i => nth i array 0%Z) (members_with_role p role g)))
+          (seq 0 (g_count p))).
+Proof. exact sum_ok. Qed.
+Print Assumptions sum_spec.
+
+(** nb_persons(role): the number of members [holding the role]. *)
+Theorem nb_persons_spec : forall p role,
+  wf_pop p ->
+  nb_persons p role =
+  Ok (map (fun g => Z.of_nat (length (members_with_role p role g))) (seq 0 (g_count p))).
+Proof. exact nb_persons_ok. Qed.
+Print Assumptions nb_persons_spec.
+
+(** project(array, role): person i receives the value of the group it belongs to
+    (0 when a role is given and the person does not hold it). *)
+Theorem project_spec : forall p array role,
+  wf_pop p -> length array = g_count p ->
+  project p array role =
+  Ok (map (fun i => if in_role p role i then nth (group_of p i) array 0%Z else 0%Z)
+          (seq 0 (npersons p))).
+Proof. exact project_ok. Qed.
+Print Assumptions project_spec.
 
 Theorem chain_bubbles_up : forall sim c1 c2 x,
   transform_and_bubble_up sim (c1 ++ c2) x =
